@@ -125,6 +125,38 @@ Definition sar0_frame (ch : dtype_chain) (bits : Z) (vmax : b64) (xs : list b64)
   | Some w => Some (w, map (sar0_code w bits vmax) xs)
   end.
 
+(* The noisy variant in general: the perturbation np.random.normal(strengths[i], noises[i]) drawn for bit i
+   is a parameter p_i (one value per bit; the check makes the draw the same for every pixel):
+   ref += p_i ; mask ; acc += dv*mask ; rem -= ref*mask ; ref /= 2.   sar0 is the case p_i = +0.0. *)
+Definition sarp_step (bits : Z) (s : sar_state) (i : Z) (p : b64) : sar_state :=
+  let r := badd (ref s) p in
+  let hit := bge (rem s) r in
+  let mask := if hit then bofZ 1 else pzero in
+  {| acc := acc s + digital_value bits i * (if hit then 1 else 0);
+     rem := bsub (rem s) (bmul r mask);
+     ref := bdiv r (bofZ 2) |}.
+
+Fixpoint sarp_loop (bits : Z) (ps : list b64) (i : Z) (s : sar_state) : sar_state :=
+  match ps with
+  | [] => s
+  | p :: t => sarp_loop bits t (i + 1) (sarp_step bits s i p)
+  end.
+
+(* the loop runs over range(adc_bits) and indexes strengths[i], noises[i]: fewer than adc_bits values is an
+   IndexError (None); surplus values are never read *)
+Definition sarp_acc (bits : Z) (vmax : b64) (ps : list b64) (x : b64) : Z :=
+  acc (sarp_loop bits (firstn (Z.to_nat bits) ps) 0 {| acc := 0; rem := x; ref := bdiv vmax (bofZ 2) |}).
+
+Definition sarp_code (w bits : Z) (vmax : b64) (ps : list b64) (x : b64) : option Z :=
+  cast_unsigned w (Some (sarp_acc bits vmax ps x)).
+
+Definition sarp_frame (ch : dtype_chain) (bits : Z) (vmax : b64) (ps : list b64) (xs : list b64)
+  : option (Z * list (option Z)) :=
+  match chain_width ch bits with
+  | None => None
+  | Some w => if (Z.of_nat (length ps) <? bits) then None else Some (w, map (sarp_code w bits vmax ps) xs)
+  end.
+
 (* ---------------------------------------------------------------- the detector-level models
    simple_adc / sar_adc / sar_adc_with_noise: which detector attribute feeds which argument of the
    converter, how the output type is chosen, and that detector.image.array receives the converter's
@@ -229,6 +261,17 @@ Definition run_sar0 (ch : dtype_chain) (w : sar0_wiring) (d : adc_detector) (n_s
   | _, _, _, _, _ => None
   end.
 
+(* the noisy variant with given per-bit perturbations (strengths / noises tuples of adc_bit_resolution elements) *)
+Definition run_sarp (ch : dtype_chain) (w : sar0_wiring) (d : adc_detector) (ps : list b64)
+  : option (Z * list (option Z)) :=
+  match pickZ (nw_bits w) d, pickF (nw_vmax w) d, pickL (nw_signal w) d, pickZ (nw_rows w) d, pickZ (nw_cols w) d with
+  | Some b, Some hi, Some xs, Some r, Some c =>
+      if (r =? d_rows d) && (c =? d_cols d) && nw_store_image w
+         && src_eqb (nw_strengths w) FromStrengths && src_eqb (nw_noises w) FromNoises
+      then sarp_frame ch b hi ps xs else None
+  | _, _, _, _, _ => None
+  end.
+
 (* the wiring the property text describes *)
 Definition simple_wiring_ok (w : simple_wiring) : bool :=
   src_eqb (sw_signal w) FromSignal && src_eqb (sw_bits w) FromBits && src_eqb (sw_vmin w) FromRangeLo
@@ -281,6 +324,10 @@ Definition sar_spec (bits : Z) (xs : list b64) (w : Z) (cs : list Z) : bool :=
   (2 ^ bits - 1 <? 2 ^ w) && (Nat.eqb (length xs) (length cs))
   && forallb (in_code_range bits) cs && sortedZ cs.
 
+(* with arbitrary perturbations only the bounds and the type width are demanded *)
+Definition noisy_spec (bits : Z) (xs : list b64) (w : Z) (cs : list Z) : bool :=
+  (2 ^ bits - 1 <? 2 ^ w) && (Nat.eqb (length xs) (length cs)) && forallb (in_code_range bits) cs.
+
 (* ---------------------------------------------------------------- comparison helpers for case files *)
 
 Definition optZ_agree (m : option Z) (o : Z) : bool :=
@@ -307,7 +354,7 @@ Fixpoint indices_where {A} (f : A -> bool) (l : list A) (i : Z) : list Z :=
   | a :: t => if f a then i :: indices_where f t (i + 1) else indices_where f t (i + 1)
   end.
 
-Inductive adc_kind := Simple | Sar | Sar0.
+Inductive adc_kind := Simple | Sar | Sar0 | Sarp.
 
 Record adc_case := {
   kind : adc_kind; bits : Z; vmin : b64; vmax : b64; xs : list b64;   (* xs sorted ascending *)
@@ -316,7 +363,8 @@ Record adc_case := {
   via_model : bool;        (* true: through the detector-level model (simple_adc / sar_adc / sar_adc_with_noise)
                               on a 1 x n detector; false: the converter function called directly *)
   data_type : option Z;    (* Simple only: width of an explicit output type (data_type= / dtype=) *)
-  n_strengths : Z; n_noises : Z   (* Sar0 through the model: lengths of the two argument tuples *)
+  n_strengths : Z; n_noises : Z;  (* Sar0 through the model: lengths of the two argument tuples *)
+  perturb : list b64       (* Sarp only: the perturbation of each bit, strengths[i] + noises[i] * z_i *)
 }.
 (* All three converters work on a binary64 copy of the signal frame (np.asarray / np.array with
    dtype=float), so a float32 / float16 frame is handed to the model as the binary64 numbers it converts
@@ -340,6 +388,7 @@ Definition model_of (ch : dtype_chain) (sw : simple_wiring) (rw : sar_wiring) (n
     | Simple => run_simple ch sw (det_of c) (data_type c)
     | Sar => run_sar ch rw (det_of c)
     | Sar0 => run_sar0 ch nw (det_of c) (n_strengths c) (n_noises c)
+    | Sarp => run_sarp ch nw (det_of c) (perturb c)
     end
   else
     match kind c with
@@ -349,6 +398,7 @@ Definition model_of (ch : dtype_chain) (sw : simple_wiring) (rw : sar_wiring) (n
                 end
     | Sar => sar_frame ch (bits c) (vmax c) (xs c)
     | Sar0 => sar0_frame ch (bits c) (vmax c) (xs c)
+    | Sarp => sarp_frame ch (bits c) (vmax c) (perturb c) (xs c)
     end.
 
 Definition case_mismatch ch sw rw nw (c : adc_case) : bool :=
@@ -373,6 +423,7 @@ Definition case_violates (c : adc_case) : bool :=
             | Sar => sar_spec (bits c) (xs c) w cs
             | Sar0 => sar_spec (bits c) (xs c) w cs
                       && match twin c with Some ts => listZ_eqb ts cs | None => false end
+            | Sarp => noisy_spec (bits c) (xs c) w cs
             end)
   end.
 
